@@ -56,6 +56,7 @@ func createStructDesc(rv reflect.Value) (*structDesc, error) {
 		}
 	}
 	abiType := rtTypePtr(rt)
+	verifYield(verifYieldBeforeLock)
 	sdsmu.Lock()
 	defer sdsmu.Unlock()
 	if sd := sds.Get(abiType); sd != nil {
@@ -66,6 +67,7 @@ func createStructDesc(rv reflect.Value) (*structDesc, error) {
 		return nil, err
 	}
 	sds.Set(abiType, sd)
+	verifYield(verifYieldBetweenSets)
 	if rv.Kind() == reflect.Ptr {
 		sds.Set(rvTypePtr(rv), sd) // *struct and struct share the same structDesc
 	}
@@ -83,6 +85,7 @@ func newStructDescAndPrefetch(t reflect.Type) (*structDesc, error) {
 		return nil, err
 	}
 	prefetchStructDescCache[t] = sd
+	verifYield(verifYieldAfterCacheInsert)
 	if err := prefetchSubStructDesc(sd); err != nil {
 		delete(prefetchStructDescCache, t)
 		return nil, err
